@@ -61,6 +61,13 @@ pub fn check(case: &C12Case, st: &mut Stats) -> Verdict {
         if !r.errors.is_empty() {
             return Err(fail("structure", format!("{:?}", r.errors)));
         }
+        // C12's own clause first: without decoys every digest must match an issued disclosure
+        if !decoys && (!r.unmatched_sd.is_empty() || !r.unmatched_placeholders.is_empty()) {
+            return Err(fail(
+                "present-when-off",
+                format!("decoys are off but {} _sd digests and {} array placeholders match no issued disclosure", r.unmatched_sd.len(), r.unmatched_placeholders.len()),
+            ));
+        }
         let got_hidden: BTreeSet<Path> = r.hidden.keys().cloned().collect();
         if got_hidden != want_hidden {
             st.label("void:hidden_set_differs");
